@@ -252,10 +252,6 @@ func (svc *service) writeMessage(msg message.Message) (int, error) {
 		wrap bool
 	)
 
-	if svc.out == nil {
-		return 0, ErrBufferNotReady
-	}
-
 	// This is to serialize writes to the underlying buffer. Multiple goroutines could
 	// potentially get here because of calling Publish() or Subscribe() or other
 	// functions that will send messages. For example, if a message is received in
@@ -271,7 +267,14 @@ func (svc *service) writeMessage(msg message.Message) (int, error) {
 	svc.wmu.Lock()
 	defer svc.wmu.Unlock()
 
-	buf, wrap, err = svc.out.WriteWait(l)
+	// stop() resets svc.out (under wmu) while other connections may still be
+	// delivering to this one, so it must be checked and used under the mutex.
+	out := svc.out
+	if out == nil {
+		return 0, ErrBufferNotReady
+	}
+
+	buf, wrap, err = out.WriteWait(l)
 	if err != nil {
 		return 0, err
 	}
@@ -286,7 +289,7 @@ func (svc *service) writeMessage(msg message.Message) (int, error) {
 			return 0, err
 		}
 
-		m, err = svc.out.Write(svc.outtmp[0:n])
+		m, err = out.Write(svc.outtmp[0:n])
 		if err != nil {
 			return m, err
 		}
@@ -296,7 +299,7 @@ func (svc *service) writeMessage(msg message.Message) (int, error) {
 			return 0, err
 		}
 
-		m, err = svc.out.WriteCommit(n)
+		m, err = out.WriteCommit(n)
 		if err != nil {
 			return 0, err
 		}
